@@ -209,6 +209,21 @@ fn lookup_cases(w: &mut dyn Write, r: &mut Rng, b: &Built, info: &PermInfo, cnam
             writeln!(w, "c10 {fam} corrupt:{role}:{kind} = {} # row={row} col={col} holds={} prover={po} verify={vo}",
                      accepted_iff(holds, &vo) as u8, holds as u8).unwrap();
             cnt += 2;
+            // the same violating trace with a prover that puts the lookup's total defect into ONE helper
+            // cell before computing Z (knob aux_balance): the running sum closes, so only the constraint
+            // defining that helper column on that row can object - for every helper column
+            if !lookup_holds(l, &rows) && kind == 0 && b.spec.degree >= 2 {
+                let nhelp = l.columns.len().div_ceil(b.spec.degree - 1);
+                for h in 0..nhelp {
+                    let brow = if h % 2 == 0 { row } else { (row + 1 + r.below((n - 1) as u64) as usize) % n };
+                    starky::verif_hooks::set_aux_balance(Some((h, brow)));
+                    let (po, vo, _) = pv(&drv, cfg, &rows, &b.pis);
+                    starky::verif_hooks::set_aux_balance(None);
+                    writeln!(w, "c10 {fam} corrupt:{role}:balanced-through-helper{h} = {} # row={row} col={col} balance_row={brow} holds=0 prover={po} verify={vo}",
+                             (vo != "ok") as u8).unwrap();
+                    cnt += 1;
+                }
+            }
         }
     }
     // a frequency moved between two table rows carrying the same value: still the same multiset
